@@ -159,8 +159,71 @@ fn session(k: usize, toks: &[&str], rs: char) -> String {
     )
 }
 
+/// stall <mib> <secs> (thorough tier): a response with a body of <mib> MiB to a client that reads the head and the
+/// first megabyte, then does not read for <secs> seconds, then reads on.  A slow client is not a failed write: what it
+/// receives in the end is exactly the one serialisation -- in particular nothing like a second status line in the
+/// middle of the body.  observation: stall ok | stall <what differs>
+fn stall(toks: &[&str]) -> String {
+    use std::io::{Read, Write};
+    let mib: usize = toks[0].parse().unwrap();
+    let secs: u64 = toks[1].parse().unwrap();
+    let body: Vec<u8> = (0..mib * 1024 * 1024).map(|i| (i % 251) as u8).collect();
+    let listener = std::net::TcpListener::bind("127.0.0.1:0").unwrap();
+    let addr = listener.local_addr().unwrap();
+    let executor = safina::executor::Executor::new(1, 1).unwrap();
+    safina::timer::start_timer_thread();
+    let body2 = body.clone();
+    let permit = permit::Permit::new();
+    let sub = permit.new_sub();
+    let server = std::thread::spawn(move || {
+        let (server_std, peer) = listener.accept().unwrap();
+        let stream = async_net::TcpStream::try_from(server_std).unwrap();
+        let conn = HttpConn::new(peer, stream);
+        let handler = move |_req: servlin::Request| {
+            let b = body2.clone();
+            async move { Response::new(200).with_body(servlin::ResponseBody::Vec(b)) }
+        };
+        executor.block_on(servlin::internal::handle_http_conn(sub, servlin::internal::Token::new(), conn, None, 65536, handler));
+    });
+    let mut client = std::net::TcpStream::connect(addr).unwrap();
+    client.write_all(b"GET / HTTP/1.1\r\n\r\n").unwrap();
+    let mut got: Vec<u8> = Vec::new();
+    let mut buf = vec![0u8; 65536];
+    while got.len() < 1024 * 1024 {
+        match client.read(&mut buf) {
+            Ok(0) | Err(_) => break,
+            Ok(n) => got.extend_from_slice(&buf[..n]),
+        }
+    }
+    std::thread::sleep(std::time::Duration::from_secs(secs));
+    let _ = client.shutdown(std::net::Shutdown::Write);
+    loop {
+        match client.read(&mut buf) {
+            Ok(0) | Err(_) => break,
+            Ok(n) => got.extend_from_slice(&buf[..n]),
+        }
+    }
+    drop(permit);
+    let _ = server.join();
+    let Some(p) = got.windows(4).position(|w| w == b"\r\n\r\n") else { return "stall no-head".to_string() };
+    let head = String::from_utf8_lossy(&got[..p]).to_ascii_lowercase();
+    if !head.starts_with("http/1.1 200") || !head.contains(&format!("content-length: {}", body.len())) {
+        return "stall head-differs".to_string();
+    }
+    let recv = &got[p + 4..];
+    if recv == body.as_slice() {
+        "stall ok".to_string()
+    } else if recv.len() <= body.len() && recv == &body[..recv.len()] {
+        format!("stall body-cut-at-{}", recv.len())
+    } else {
+        let k = recv.iter().zip(body.iter()).take_while(|(a, b)| a == b).count();
+        format!("stall foreign-bytes-in-the-body-at-{k}")
+    }
+}
+
 fn main() {
     run_lines(|toks| match toks[0] {
+        "stall" => stall(&toks[1..]),
         "ser" => ser(&toks[1..]),
         "conn" => conn(&toks[1..]),
         "connB" => session(0, &toks[1..], 'B'),
